@@ -259,8 +259,8 @@ Qed.
 
 (* ---- non-vacuity: an HTML body of 2 MiB + 5000 bytes delivered in three pieces, the first
    two with spurious errors that a body with deadlines swallows ------------------------------ *)
-Definition ex_html : mime := [MN false false (bs "text/html; charset=utf-8"); MN true false (bs "text/plain");
-                              MN false false (bs "application/octet-stream")].
+Definition ex_html : mime := [MN false false false (bs "text/html; charset=utf-8"); MN true false false (bs "text/plain");
+                              MN false false false (bs "application/octet-stream")].
 Definition ex_script : script :=
   [(lit (bs "<html>") ++ [("a"%char, 3000)], Some 7); ([("b"%char, 2097152)], Some 9); ([("c"%char, 1994)], None)].
 Example body_drained_nonvacuous :
